@@ -55,12 +55,102 @@ func (r *c13Rule) CommitRule(*hotstuff.Block) *hotstuff.Block { return r.next }
 
 var c13TS = time.Date(2025, 2, 2, 0, 0, 0, 0, time.UTC)
 
-func c13Block(parent hotstuff.Hash, view uint64, salt int) *hotstuff.Block {
-	b := hotstuff.NewBlock(parent, hotstuff.QuorumCert{},
+// ---------------------------------------------------------------------------------------------
+// Certificate links are chosen independently of parent links: the quorum certificate a block
+// carries names its parent, an ancestor further up, a block on another branch (possibly with a
+// higher view), genesis, a hash nobody has, or nothing. The store must answer from PARENT links
+// only. (A block cannot certify itself: its hash covers its certificate.)
+var (
+	c13Pool []*hotstuff.Block // blocks of the universe under construction (possible certificate targets)
+	c13Tag  uint64
+)
+
+func c13NewUniverse(tag uint64) {
+	c13Pool = []*hotstuff.Block{hotstuff.GetGenesis()}
+	c13Tag = tag
+}
+
+func c13Mix(x uint64) uint64 {
+	x += 0x9e3779b97f4a7c15
+	x = (x ^ (x >> 30)) * 0xbf58476d1ce4e5b9
+	x = (x ^ (x >> 27)) * 0x94d049bb133111eb
+	return x ^ (x >> 31)
+}
+
+func c13Tagged(s string) uint64 {
+	h := uint64(1469598103934665603)
+	for i := 0; i < len(s); i++ {
+		h = (h ^ uint64(s[i])) * 1099511628211
+	}
+	return h
+}
+
+func c13CertOf(b *hotstuff.Block) hotstuff.QuorumCert {
+	return hotstuff.NewQuorumCert(nil, b.View(), b.Hash())
+}
+
+// c13CertFor picks the certificate of a new block, deterministically from the universe tag.
+func c13CertFor(parent hotstuff.Hash, view uint64, salt int) hotstuff.QuorumCert {
+	if c13Pool == nil {
+		c13NewUniverse(0)
+	}
+	r := c13Mix(c13Tag ^ c13Mix(uint64(salt)+uint64(len(c13Pool))<<20) ^ c13Mix(view) ^ uint64(parent[3])<<8 ^ uint64(parent[7]))
+	find := func(h hotstuff.Hash) *hotstuff.Block {
+		for _, x := range c13Pool {
+			if x.Hash() == h {
+				return x
+			}
+		}
+		return nil
+	}
+	any := c13Pool[int((r>>8)%uint64(len(c13Pool)))]
+	switch r % 16 {
+	case 0, 1, 2: // the parent, as an honest proposer does
+		if p := find(parent); p != nil {
+			return c13CertOf(p)
+		}
+		return hotstuff.NewQuorumCert(nil, hotstuff.View(view-1), parent)
+	case 3: // an ancestor further up
+		if p := find(parent); p != nil {
+			if gp := find(p.Parent()); gp != nil {
+				return c13CertOf(gp)
+			}
+		}
+		return c13CertOf(c13Pool[0])
+	case 4, 5, 6, 7, 8, 9, 10: // any block made so far: another branch, same or higher view, genesis
+		return c13CertOf(any)
+	case 11: // the block with the highest view so far
+		top := c13Pool[0]
+		for _, x := range c13Pool {
+			if x.View() > top.View() {
+				top = x
+			}
+		}
+		return c13CertOf(top)
+	case 12: // a hash nobody has
+		return hotstuff.NewQuorumCert(nil, hotstuff.View(view), c13Missing(200+salt%50))
+	case 13: // right block, wrong view label
+		return hotstuff.NewQuorumCert(nil, any.View()+1, any.Hash())
+	case 14: // no certificate at all
+		return hotstuff.QuorumCert{}
+	default: // genesis
+		return c13CertOf(c13Pool[0])
+	}
+}
+
+func c13BlockQC(parent hotstuff.Hash, view uint64, salt int, qc hotstuff.QuorumCert) *hotstuff.Block {
+	b := hotstuff.NewBlock(parent, qc,
 		&clientpb.Batch{Commands: []*clientpb.Command{{ClientID: uint32(salt), SequenceNumber: uint64(salt)}}},
 		hotstuff.View(view), hotstuff.ID(1+salt%4))
 	b.SetTimestamp(c13TS)
+	c13Pool = append(c13Pool, b)
 	return b
+}
+
+// c13Block makes a block with the given parent hash and view; salt separates equivocating blocks.
+// Its certificate is chosen by c13CertFor, independently of the parent.
+func c13Block(parent hotstuff.Hash, view uint64, salt int) *hotstuff.Block {
+	return c13BlockQC(parent, view, salt, c13CertFor(parent, view, salt))
 }
 
 func c13Missing(i int) hotstuff.Hash {
@@ -152,6 +242,7 @@ func c13NewRun(v *verifOut, logger logging.Logger, cfg *core.RuntimeConfig, base
 	r := &c13Run{c13Cm: &c13Cm{intern: map[hotstuff.Hash]uint64{}}, v: v, kind: kind, key: key,
 		byBatch: map[*clientpb.Batch]*hotstuff.Block{}, present: map[hotstuff.Hash]*hotstuff.Block{},
 		executedAt: map[hotstuff.Hash]int{}, abortedAt: map[hotstuff.Hash]int{}, increasing: true, allStored: true}
+	c13NewUniverse(c13Tagged(kind + " " + key)) // certificate links of this scenario's blocks
 	r.snd = &c13Sender{tbl: map[hotstuff.Hash]*hotstuff.Block{}}
 	r.el = eventloop.New(logger, 4096)
 	r.chain = blockchain.New(r.el, logger, r.snd)
@@ -418,8 +509,16 @@ func c13RandomCommits(r *c13Run, seed int64) {
 		switch rng.Intn(4) {
 		case 0: // commit directly, the block possibly not stored
 			r.Commit(nil, b, fetchable)
-		case 1: // a younger block arrives and the rule names b
-			r.Commit(uni[rng.Intn(len(uni))], b, fetchable)
+		case 1: // a younger block arrives and the rule names b, or the block its certificate names
+			via := uni[rng.Intn(len(uni))]
+			if rng.Intn(2) == 0 {
+				for _, x := range uni {
+					if x.Hash() == via.QuorumCert().BlockHash() {
+						b = x
+					}
+				}
+			}
+			r.Commit(via, b, fetchable)
 		default:
 			r.Commit(b, b, fetchable)
 		}
